@@ -7,7 +7,9 @@
 (* association shapes, nested function calls, a projection list applied    *)
 (* to a leaf, a function call inside an operation); t2 is t1 itself (built *)
 (* a second time from scratch by the harness) or one single-site mutation  *)
-(* of t1 (OperatorKeys!Muts).  Every emitted pair is built with the real   *)
+(* of t1 (OperatorKeys!Muts), built by every route of OperatorKeys!Routes  *)
+(* (leaf-wise chains of single shifts, whole-tree shifts of hashed trees). *)
+(* Every emitted pair is built with the real                               *)
 (* porepy classes; J_OperatorKeys judges key / hash equality.              *)
 (* Model laws: a pair is never both structurally equal and different;      *)
 (* every proper mutant is not structurally equal to its origin.            *)
@@ -20,8 +22,8 @@ CONSTANTS NGrids,      \* <<#subdomains, #interfaces, #boundary grids>> of the h
           Core2,       \* leaves used in depth-2 trees
           Tags1, Tags2 \* operations used at depth 1 / depth 2
 
-VARIABLES stage, t1, t2
-evars == <<stage, t1, t2>>
+VARIABLES stage, t1, t2, route      \* route: how the harness builds t2 (OperatorKeys!Routes)
+evars == <<stage, t1, t2, route>>
 
 Projs(S) == {l \in S : l.k = "proj"}
 Depth1 ==
@@ -29,6 +31,9 @@ Depth1 ==
   \cup {Fn(f, <<l>>) : f \in FnNames, l \in CoreLeaves}
   \cup {Fn("exp", <<l, r>>) : l \in Core2, r \in Core2}
   \cup {PList(<<p, q>>) : p \in Projs(AllLeaves), q \in Projs(AllLeaves)}
+  \* trees all of whose time-dependent leaves are pushed back already (whole-tree routes of depth 1 and 2)
+  \cup {Op(g, l, r) : g \in Tags2, l \in {x \in AllLeaves : x.ts + x.it > 0}, r \in {x \in Core2 : x.k \notin TimeKinds}}
+  \cup {Op(g, r, l) : g \in Tags2, l \in {x \in AllLeaves : x.ts + x.it > 0}, r \in {x \in Core2 : x.k \notin TimeKinds}}
 Depth2 ==
      {Op(g, Op(h, x, y), z) : g \in Tags2, h \in Tags2, x \in Core2, y \in Core2, z \in Core2}
   \cup {Op(g, x, Op(h, y, z)) : g \in Tags2, h \in Tags2, x \in Core2, y \in Core2, z \in Core2}
@@ -38,14 +43,19 @@ Depth2 ==
   \cup {Op("matmul", PList(<<p, q>>), x) : p \in Projs(CoreLeaves), q \in Projs(AllLeaves), x \in Core2}
 Trees == AllLeaves \cup Depth1 \cup Depth2
 
-Init == stage = "tree" /\ t1 \in {t \in Trees : Buildable(t)} /\ t2 = t1
+Init == stage = "tree" /\ t1 \in {t \in Trees : Buildable(t)} /\ t2 = t1 /\ route = RouteRec("direct", 0, t1)
 Next == /\ stage = "tree" /\ stage' = "pair" /\ t1' = t1
-        /\ t2' \in {t \in {t1} \cup Muts(t1, NGrids) : Buildable(t)}
+        /\ \E m \in {t \in {t1} \cup Muts(t1, NGrids) : Buildable(t)} : \E r \in Routes(m) : t2' = m /\ route' = r
 Spec == Init /\ [][Next]_evars
 
-Emit == stage = "pair" => PrintT(ToJson([t1 |-> Pack(t1), t2 |-> Pack(t2)]))
+Emit == stage = "pair" => PrintT(ToJson([t1 |-> Pack(t1), t2 |-> Pack(t2), route |-> <<route.r, route.s, Pack(route.base)>>]))
 
 LawExclusive == stage = "pair" => ~(StructEq(t1, t2) /\ Differ(t1, t2))
 LawMutantsNotEqual == stage = "pair" => (StructEq(t1, t2) <=> t1 = t2)
+\* pushing the start tree of a whole-tree route back s steps gives t2 (leaf by leaf)
+LawRouteReachesTree == stage = "pair" =>
+  (route.r \in {"treeT", "treeI"} =>
+     /\ route.s > 0 /\ Unshift(t2, route.r, route.s) = route.base
+     /\ \A l \in LeavesOf(route.base) : l.ts >= 0 /\ l.it >= 0)
 LawPackRoundTrip == stage = "pair" => Unpack(Pack(t2)) = t2
 ==============================================================================
